@@ -86,6 +86,7 @@ def parse_order(project, fn, call):
 
 
 def run(ctx):
+    _scope_rule(ctx)
     ctx.rule("C15.R1", "every instruction class that can occur in a block is constructed by the reader", floor=15)
     ctx.rule("C15.R2", "every operator / condition string is produced as one token and accepted by the parser", floor=20)
     ctx.rule("C15.R3", "every semantic field of a printed class appears in its printed form", floor=25)
@@ -180,3 +181,20 @@ def run(ctx):
             pr2 = [f for f in pr if f in po]
             ctx.ob("C15.R5", "%s:Reader.%s" % (R, m.name), "ir.%s operands are parsed in the order they are printed (%s)" % (cname, ", ".join(pr)), po == pr2 and len(po) >= min(len(pr), 1),
                    construct="order:" + cname, node=call, detail="printed %s, parsed %s" % (pr, po))
+
+
+def _scope_rule(ctx):
+    """name resolution must search the innermost scope first (locals shadow
+    module-level names) and define into the innermost scope"""
+    import ast as _a
+    from ..core import norm as _n, walk_no_nested as _w
+    rid = "C15.R9"
+    ctx.rule(rid, "value names resolve innermost scope first; definitions go to the innermost scope", floor=2)
+    lk = ctx.fn("ppci/irutils/reader.py", "Reader.find_value")
+    loops = [x for x in _w(lk) if isinstance(x, _a.For) and "scopes" in _n(x.iter)]
+    ok = bool(loops) and _n(loops[0].iter) in ("reversed(self.scopes)", "self.scopes[::-1]")
+    ctx.ob(rid, "ppci/irutils/reader.py:Reader.find_value", "lookup walks the scope stack from the innermost scope outwards", ok, construct="innermost-first", detail=_n(loops[0].iter) if loops else "no loop over scopes")
+    df = ctx.fn("ppci/irutils/reader.py", "Reader.define_value")
+    st = [x for x in _w(df) if isinstance(x, _a.Assign) and "value_map" in _n(x.targets[0])]
+    ok = bool(st) and _n(st[0].targets[0]).startswith("self.scopes[-1].value_map[")
+    ctx.ob(rid, "ppci/irutils/reader.py:Reader.define_value", "a new value is defined in the innermost scope", ok, construct="define-innermost")
